@@ -354,7 +354,7 @@ def _ev(p, fi):
 def pairing_blocking(ctx, fi):
     """Def-use pairing inside blocking_analysis (terms, not text)."""
     from ..rules.match import m_arrcall, m_binop, m_method, product_factors, strip_reshape
-    from ..symex import call_parts, const, getitem, is_const, strip_wrappers, subterms, sym
+    from ..symex import call_parts, const, func_name, getitem, is_const, strip_wrappers, subterms, sym
 
     p = ctx.p
     ev, fr = _ev(p, fi)
@@ -515,6 +515,28 @@ def pairing_blocking(ctx, fi):
             why = f"vectorised: same [:n].reshape(nBlocks, i) split for weights and weighted samples {same_split}; " \
                   f"block means = blocked weighted samples / blocked weights {div_ok}"
             vec = (n_w, d0w, d1w)
+    # segment sums with ufunc.reduceat: the last segment runs to the END of the array, so the series has to be cut to
+    # nBlocks * i samples first; on the uncut series the nSamples % i trailing samples are folded into the last block
+    tails = []
+    for e in ev.events:
+        if e.kind == "assign" and e.loops and hasattr(e.data[1], "op"):
+            for x in subterms(e.data[1]):
+                if x.op == "call" and (func_name(x) or "").endswith(".reduceat"):
+                    ra_ = call_parts(x)[1]
+                    if len(ra_) >= 2:
+                        data, idx = strip_wrappers(ra_[0]), strip_wrappers(ra_[1])
+                        ar = m_arrcall(idx, "arange")
+                        if ar is not None and len(ar) == 3:
+                            stop = strip_wrappers(ar[1])
+                            cut = data.op == "getitem" and data.args[1].op == "slice" and \
+                                strip_wrappers(data.args[1].args[1]) is stop if data.op == "getitem" and \
+                                len(data.args[1].args) >= 2 and hasattr(data.args[1].args[1], "op") else False
+                            if not cut and x.uid not in {t_.uid for t_, _ in tails}:
+                                tails.append((x, show(data, maxdepth=2)[:40]))
+    if tails:
+        ctx.ob("PAIR-4", "blocking_analysis: blocks are consecutive slices [j*i, (j+1)*i) and nBlocks = nSamples // i", False,
+               f"reduceat over segment starts arange(0, n, i) on the uncut series {tails[0][1]}: the last segment runs to the end "
+               f"of the array and takes the nSamples % i trailing samples with it", fi)
     if bw_name is None and vec is None:
         ctx.rep.note("blocking_analysis: neither the per-block loop nor the reshape(nBlocks, i).sum(axis=1) form of the block "
                      "sums was found; the block pairing rules (PAIR-4) are not applicable to this shape of the code")
